@@ -405,6 +405,14 @@ func c12Gen(r *kit.Rng) *c12Scenario {
 	if mode != "from" && mode != "into" {
 		op.Tree, op.List = nil, nil
 	}
+	if mode == "into" && op.List != nil && len(op.At) > 0 && r.Chance(1, 2) {
+		// the source is a list selection carrying a where constraint that every entry
+		// satisfies: the predicate is evaluated by reading the source's leaves, and a
+		// read that fails there must surface like any other
+		if keys := op.List.S.Keys; len(keys) > 0 {
+			op.Where = keys[0] + "!%3D'zz-no-such-key'"
+		}
+	}
 	if mode == "from" && r.Chance(1, 8) {
 		// an edit rooted at a leaf selection: the node holding the leaf (begun twice) and its ancestors
 		var cands []model.Path
@@ -489,6 +497,9 @@ func c12Explore(sc *c12Scenario, seed uint64, pairs int, r *kit.Rng) (out RunOut
 	out.Stats.Inc("op:" + sc.Op.Kind)
 	if sc.Op.Leaf != "" {
 		out.Stats.Inc("probe:edit-rooted-at-a-leaf-selection")
+	}
+	if sc.Op.Where != "" {
+		out.Stats.Inc("probe:source-selection-constrained-by-where")
 	}
 	if base.res.Err != nil {
 		out.Stats.Inc("baseline-returned-error")
